@@ -65,8 +65,16 @@ def main(argv):
             print('%-14s %s %s exit=%d %s (%.0fs)' % (name, pid, results[name]['status'], c.returncode, viol[:1], time.time() - t0))
         finally:
             sh('git -C /repo worktree remove --force %s' % wt)
-    with open(rp, 'w') as f:
-        json.dump(results, f, indent=1, sort_keys=True)
+    # merge under a lock: several runs (different properties) may finish at different times
+    import fcntl
+    with open(rp + '.lock', 'w') as lk:
+        fcntl.flock(lk, fcntl.LOCK_EX)
+        cur = json.load(open(rp)) if os.path.exists(rp) else {}
+        for name in names:
+            if name in results:
+                cur[name] = results[name]
+        with open(rp, 'w') as f:
+            json.dump(cur, f, indent=1, sort_keys=True)
 
 
 if __name__ == '__main__':
